@@ -219,6 +219,21 @@ def array_level(chk, tier, r):
                                        expected=dict(intersects=bi, covers=bc, overlaps=bo)), size=len(els))
                     break
             chk.count("array-level-index:" + ("missing" if any(e is None or e == [] for e in els) else "valid"))
+            # an array derived from one that already has an index answers for its own rows
+            for dname, f in (("[::-1]", lambda a: a[::-1]), ("[:]", lambda a: a[:]), ("[::2]", lambda a: a[::2]), ("[1:]", lambda a: a[1:]))[: (4 if k % 2 else 1)]:
+                sub = f(arr)
+                pos = eval("list(range(len(els)))" + dname)
+                sb = [bnds[i] for i in pos]
+                for q in qs[:5] + qs[6:8]:
+                    gi = sorted(int(x) for x in sub.sindex.intersects(tuple(q)))
+                    co = sub.sindex.covers_overlaps(tuple(q))
+                    bi, bc, bo = brute(sb, q, 2)
+                    chk.evaluated()
+                    if (gi, sorted(int(x) for x in co[0]), sorted(int(x) for x in co[1])) != (bi, bc, bo):
+                        chk.violation(f"rtree/array-level/derived-from-an-indexed-array/{dname}",
+                                      dict(api="GeometryArray.sindex", kind=kind, elements=els, derivation=dname, page_size=ps, query=q,
+                                           impl=gi, expected=bi), size=len(els))
+                        break
         except Exception as e:  # noqa: BLE001
             chk.violation(f"rtree/array-level/raises-{common.err_kind(e)}", dict(api="sindex", kind=kind, elements=els, error=repr(e)[:300]), size=len(els))
 
